@@ -221,8 +221,9 @@ func init() {
 	checks["C19"] = func(tier string) {
 		run := evid.NewRun("C19", tier)
 		lmc := modelCheck("Limiter", "MC_Limiter.cfg", 8)
-		mc := modelCheck("MC_Session", "MC_Session.cfg", 16)
-		gs := dumpEdges("MC_Session", "Dump_Session.cfg")
+		mc := modelCheck("MC_Err", "MC_Err.cfg", 16)
+		gs := dumpEdges("MC_Err", "Dump_Err.cfg")
+		gs = append(gs, dumpEdges("MC_Session", "Dump_Session.cfg")...)
 		st := tourSome(run, gs, func(e *sessrep.Edge) bool { return e.Lbl.Cmd.C == "BAD" || e.Lbl.Cmd.C == "LONG" })
 		ags := dumpEdges("MC_Auth", "Dump_Auth.cfg")
 		ast := tourSome(run, ags, func(e *sessrep.Edge) bool { return e.Lbl.Cmd.C == "LONG" })
